@@ -320,6 +320,7 @@ class DetachedServer(ServerBase):
             # This task is unknown to the system
             m = (conn, RuntimeMessage.STATUS, CompilationStatus.UNKNOWN)
             self.outgoing.put(m)
+            return
 
         # Get the mailbox associated with this task.
         mailbox_id = self.tasks[request][0]
